@@ -262,11 +262,11 @@ func (sg *snippetGenerator) forLiteralType(attrType cty.Type, nestingLvl int) st
 			return fmt.Sprintf("[ %s ]", sg.forLiteralType(elTypes[0], nestingLvl))
 		}
 
-		tupleSnippet := ""
-		for _, elType := range elTypes {
-			tupleSnippet += sg.forLiteralType(elType, nestingLvl+1)
+		elSnippets := make([]string, len(elTypes))
+		for i, elType := range elTypes {
+			elSnippets[i] = sg.forLiteralType(elType, nestingLvl+1)
 		}
-		return fmt.Sprintf("[\n%s]", tupleSnippet)
+		return fmt.Sprintf("[ %s ]", strings.Join(elSnippets, ", "))
 	}
 
 	return ""
@@ -458,11 +458,11 @@ func newTextForLiteralType(attrType cty.Type) string {
 			return fmt.Sprintf("[ %s ]", newTextForLiteralType(elTypes[0]))
 		}
 
-		tupleSnippet := ""
-		for _, elType := range elTypes {
-			tupleSnippet += newTextForLiteralType(elType)
+		elTexts := make([]string, len(elTypes))
+		for i, elType := range elTypes {
+			elTexts[i] = newTextForLiteralType(elType)
 		}
-		return fmt.Sprintf("[\n%s]", tupleSnippet)
+		return fmt.Sprintf("[ %s ]", strings.Join(elTexts, ", "))
 	}
 
 	return ""
